@@ -250,7 +250,7 @@ def differential(rep, cases, dbs, configs, name, batch_size=150, timeout=120, de
             rep.violation("well-formed program rejected: %s: %s" % (c.desc, se[-300:]),
                           replay_obj(c, {}, configs[0], None, None, "rejected: " + se[-500:]))
         else:
-            rep.sample({"rejected": c.desc, "stderr": se[-200:]})
+            rep.cov.setdefault("rejected_cases", []).append({"case": c.desc, "stderr": se[-300:]})
     live = [bi for bi in range(len(batches)) if batches[bi]]
 
     # ---- build phase for compiled configs
